@@ -117,6 +117,9 @@ def gen_data(rng, method, n=None, m=None, extra=None, declared=None, positive=Fa
         elif rng.random() < 0.5:
             outside = [a['id'] for a in known if a['id'] not in chose]
             mp['currentChoice'] = rng.choice(outside) if outside and rng.random() < 0.5 else rng.choice(chose)
+    # the seeded-random walk order is an option like any other: it must survive every bias (the listeners rebuild the parameters)
+    if method in ('majorityHeuristic', 'aspectEliminationHeuristic', 'satisfactionHeuristic') and rng.random() < 0.4:
+        mp['randomAlternativesOrdering'] = True
     # method parameters may hold entries for criteria that are not declared (allowed input)
     if rng.random() < 0.15:
         if method in ('majorityHeuristic', 'aspectEliminationHeuristic'):
